@@ -35,6 +35,9 @@ T = {
  "C36-deleted-handle-reused": ("C36", "a deleted publisher/subscriber handle is handed out again to the next sibling", "delete an entity, create a sibling, then use the stale handle", []),
  "C37-set-qos-default-skips-checks": ("C37", "DataWriter::set_qos(QosKind::Default) skips consistency/immutability checks", "enabled writer, publisher default QoS changed in an immutable policy, then set_qos(Default)", []),
  "C38-fragment-size-truncating-cast": ("C38", "set_fragment_size narrows the argument to u16 before the range check", "a value >= 65544 whose low 16 bits fall in 8..=65000", []),
+ "C21b-insert-index-within-instance-subsequence": ("C21", "the BY_SOURCE_TIMESTAMP insert position is searched in the per-instance subsequence but used as an index into the whole sample list", ">= 2 instances coexisting in the reader cache with another instance's samples stored ahead, and a sample arriving late for its instance", []),
+ "C23b-take-next-instance-stops-at-first-empty": ("C23", "take_next_instance takes from the very next handle only and returns its NoData instead of walking on", "an instance earlier in handle order with no sample matching the masks (all read under NOT_READ, or fully taken) ahead of one that matches", []),
+ "C19b-unregistered-instances-not-counted-in-max-samples": ("C19", "the writer's max_samples total is summed over registered instances only", "KEEP_ALL writer with finite max_samples filled up, unregister_instance on an instance that still holds samples, then another write", []),
  "C42-sleep-registers-first-waker-only": ("C42", "Sleep::poll registers its wake with the timer thread only on the first poll", "a Sleep polled by different wakers before its deadline (block_timeout then block_on, migration) or reset()", []),
  "C07-inline-qos-offset-checked-against-datagram": ("C07", "octetsToInlineQos of DATA / DATA_FRAG is validated against the bytes left in the datagram instead of the submessage's own length", "a DATA/DATA_FRAG submessage followed by another submessage or trailing bytes, with octetsToInlineQos + 4 between the submessage length and the bytes left", ["C06"]),
  "C09-xcdr1-origin-taken-before-header": ("C09", "XCDR1 serialize_mmember records the position to resume the enclosing alignment before the 4-byte parameter header instead of after it", "XCDR1, a parameter-list member (@optional, nested mutable) followed by an 8-byte aligned member in the enclosing object", ["C10"]),
@@ -81,6 +84,9 @@ NOTES = {
  "C19-instances-counted-from-alive-only": "initially MISSED: the model treated 'instances holding only notification samples do not count' as an admissible convention; an instance with any stored sample now counts under every convention",
  "C25-filter-memory-reset-on-rebirth": "initially MASKED by the open C25 known finding (same signature); the signature now distinguishes vs=last_accepted from vs=older_accepted, the known finding being the latter",
  "C06-nackfrag-scan-unbounded": "initially MISSED (only single hostile datagrams were generated); multi-datagram hostile sequences were added, after which it is caught",
+ "C19b-unregistered-instances-not-counted-in-max-samples": "round 4: MISSED by C19 and C28 at the quick tier: the writer-limit workload (scen_rc/wlim.rs) never unregisters an instance that still holds unacknowledged samples before writing again; to be added (open gap, see DESIGN.md section 11)",
+ "C21b-insert-index-within-instance-subsequence": "round 4: caught at once",
+ "C23b-take-next-instance-stops-at-first-empty": "round 4: caught at once",
  "C13-locator-scan-stops-at-gap": "demonstration needs the cargo feature verif_hooks (see validation.txt)",
  "C34-pop-then-register-in-two-sections": "demonstration needs the cargo feature verif_hooks (see validation.txt)",
 }
